@@ -211,12 +211,13 @@ func (c01) Eval(c *Chooser, env *Env) *Outcome {
 	toolsDesc := ""
 	if c.Weighted("world.tools", 1, 3) {
 		tm := &Tools{Broken: map[string]ToolFault{}}
-		kinds := []ToolFault{TFNone, TFNonzeroEmpty, TFCannotStart, TFKilled, TFGarbage, TFEmptyOK}
+		kinds := []ToolFault{TFNone, TFNonzeroEmpty, TFCannotStart, TFKilled, TFGarbage, TFEmptyOK, TFJSONGarbage, TFNullElement}
 		if k := kinds[c.Int("fault.shellcheck", len(kinds))]; k != TFNone {
 			tm.Broken["shellcheck"] = k
 			toolsDesc += "shellcheck=" + string(k) + " "
 		}
-		if k := kinds[c.Int("fault.pyflakes", 4)]; k != TFNone {
+		pk := []ToolFault{TFNone, TFNonzeroEmpty, TFCannotStart, TFKilled, TFNoNewline}
+		if k := pk[c.Int("fault.pyflakes", len(pk))]; k != TFNone {
 			tm.Broken["pyflakes"] = k
 			toolsDesc += "pyflakes=" + string(k) + " "
 		}
@@ -347,7 +348,17 @@ func (c01) Eval(c *Chooser, env *Env) *Outcome {
 	if stdin != nil {
 		w.StdinR = stdin
 	}
-	res := RunLint(w, c, RunOpts{KeepTrace: env.KeepTrace})
+	ro := RunOpts{KeepTrace: env.KeepTrace}
+	if mode <= 2 && w.Tools == nil && c.Weighted("world.twocalls", 1, 5) {
+		// a long-lived Linter (editor integration): the same files linted by two calls on one
+		// instance through the library API; faults planned for the first access make the first
+		// call fail and the second one succeed
+		w.API = APIFiles
+		ro.Repeat, ro.ReuseLinter = 2, true
+		mustFatal, mustIdx = "", -1
+		desc = append(desc, "two LintFiles calls on one Linter")
+	}
+	res := RunLint(w, c, ro)
 	o.addRun(res.K)
 	if env.KeepTrace {
 		o.Traces = append(o.Traces, res.K.Trace)
